@@ -91,6 +91,10 @@ PROPERTY_META = {
                 text='A ghost lifetime model of the non-trivial value type vf::Tracked (every special member reports to a hook; one arbitrary watched address) asserts inside every function under contract: no construction over an alive object, no read/assign/destroy of a dead object, no byte copy over an alive object; reference assignment, swap and ElementTraits::destruct are verified to construct nothing, destroy exactly the items of the element once, and assign each item through its own operator.',
                 note='Bounded: span items <= 2. Vector-level histories with non-trivial types (erase/reserve/copy relocation loops) are covered only where vec.*t* units are listed in the evidence.',
                 design_ref='DESIGN.md 6 C06'),
+    'C17': dict(claimed=True, level='model_checking',
+                text='The exception-enabled IR of the real code is verified with an allocation hook that fails nondeterministically at every call (which covers failing the k-th allocation for every k): contracts of AllocatorAwarePointer construction/copy construction/copy assignment (unbounded, proof) and of vector construction, reserve, copy construction, copy assignment and move assignment between unequal allocators state for the exceptional exit: nothing leaked (live-block counter), no double free (ledger assertions), the source completely unchanged, the target still valid (owns its blocks, reported capacity fits its block); reaching std::terminate is an assertion failure.',
+                note='Exceptions are modelled by one pending flag (invoke/landingpad/resume lowered by the translator, calls to nounwind functions never propagate). Vector-level units are bounded in capacity/block size; ContiguousElement operations and non-trivial value types are not covered on the failure paths.',
+                design_ref='DESIGN.md 6 C17'),
     'C18': dict(claimed=True, level='model_checking',
                 text='The pre-states of all vector-level contracts include never-filled vectors (address table content arbitrary), emptied vectors and capacity 0; size/empty/data_begin/data_end/clear/erase/reserve/swap/constructor contracts are discharged on them with all pointer checks on, so no result depends on an uninitialised table slot.',
                 note='Default-constructed vectors (null table) are not yet covered.' + VEC_NOTE, design_ref='DESIGN.md 6 C18'),
@@ -141,6 +145,7 @@ def units(tier, seed=0):
             us.append(dict(id='exc.aap.F%d.%s' % (f, name), tu='aap', defines=('VF_F=%d' % f,), exceptions=True, template_text=txt, vars={'F': f},
                            entry=h, enforce='@F{%s}' % fn, replace=[], props=['C17'], layer='allocator.hpp', kind='proof', cdefs=['VF_ALLOC_MAY_FAIL=1'],
                            config='allocation failure: AllocatorAwarePointer, allocator traits F=%d' % f))
+    us += exc_vec_units(tier)
     for spec in layout.catalogue(tier, seed):
         L = layout.Layout(spec)
         txt = layout.c_unit(L)
@@ -232,6 +237,23 @@ VEC_SHAPES = {'quick': [(3, 64)], 'thorough': [(0, 0), (1, 32), (3, 64), (4, 96)
 
 def _memcpy_compatible(T, U):
     return False
+
+
+def exc_vec_units(tier):
+    us = []
+    for spec, f in ([('f4', 0), ('c4 v4', 0)] if tier != 'thorough' else [('f4', 0), ('c4 v4', 0), ('f2a4 p1', 1), ('c8a8 v2 p4a8', 4)]):
+        txt, L = vec.c_unit(spec, f)
+        txt = vec.exc_text(txt, L)
+        cxx = vec.cxx_tu(spec, f)
+        for name, h, key, two in (('ctor', 'h_vctor', 'ctor', False), ('reserve', 'h_reserve', 'reserve', False), ('copy_ctor', 'h_copy_ctor', 'copy_ctor', False),
+                                  ('copy_assign', 'h_copy_assign', 'copy_assign', True), ('move_assign', 'h_move_assign', 'move_assign', True)):
+            for capk, unitsk, capo, unitso in ([(2, 32, 3, 64), (3, 64, 2, 32)] if two else [(3, 64, 3, 64)]):
+                us.append(dict(id='exc.vec.%s.F%d.%s.cap%do%d' % (L.tag, f, name, capk, capo), tu='vec_%s_F%d' % (L.tag, f), gen=cxx, exceptions=True, template_text=txt, vars={},
+                               entry=h, enforce='@F{%s}' % vec.RXV[key], replace=[], props=['C17'], layer='vector.hpp',
+                               kind='bounded(capacity=%d, block=%d bytes; size, contents and offsets symbolic)' % (capk, (unitsk // L.sa) * L.sa),
+                               cdefs=['VF_BLOCK_K=1', 'VF_ALLOC_MAY_FAIL=1', 'VF_WINDOWS=1', 'CAPK=%d' % capk, 'UNITSK=%d' % (unitsk // L.sa), 'CAPK_O=%d' % capo, 'UNITSK_O=%d' % (unitso // L.sa)],
+                               config='allocation failure: vector %s, allocator traits F=%d' % (spec, f)))
+    return us
 
 
 def vec_catalogue(tier):
